@@ -318,7 +318,10 @@ class PropagateConstants(ast.NodeTransformer):
         if (self.has_constant_args(node)):
             import astunparse
             #print(astunparse.unparse(node), eval(astunparse.unparse(node)))
-            return VerilogConstant(eval(astunparse.unparse(node)))
+            value = eval(astunparse.unparse(node))
+            if isinstance(value, bool):
+                value = int(value)
+            return VerilogConstant(value)
         
         #print('checking call', attr)
         #if (attr == 'print'):
